@@ -3,7 +3,7 @@ sys.path.insert(0,'/verif/lib')
 import kani_run
 crate=sys.argv[1]; pat=sys.argv[2]
 src=open('/verif/contracts/kani/%s/%s' % ('geo_types' if crate=='geo-types' else 'geo', sys.argv[3])).read()
-names=re.findall(r'k_harness!\((\w+),', src)+re.findall(r'#\[kani::proof[^\]]*\]\s*(?:#\[[^\]]*\]\s*)*fn (\w+)', src)
+names=re.findall(r'k_harness\d*!\((\w+),', src)+re.findall(r'#\[kani::proof[^\]]*\]\s*(?:#\[[^\]]*\]\s*)*fn (\w+)', src)
 names=[n for n in dict.fromkeys(names) if re.search(pat,n)]
 res,meta=kani_run.run(crate,names,jobs=int(sys.argv[4]) if len(sys.argv)>4 else 8, harness_timeout=int(sys.argv[5]) if len(sys.argv)>5 else 120)
 print(meta['wall_s'], meta['compile_error'])
